@@ -282,14 +282,14 @@ def value_near(rng, lo, hi, integer=False):
         v = lo
     elif c == 1:
         v = hi
-    elif c == 2:
-        v = lo - abs(lo if lo else span) * 10 ** rng.uniform(-4, 3)
+    elif c == 2:      # from one part in 1e12 outside (still outside: clamped and warned) to three decades away
+        v = lo - abs(lo if lo else span) * 10 ** rng.uniform(-12, 3)
     elif c == 3:
-        v = hi + abs(hi if hi else span) * 10 ** rng.uniform(-4, 3)
+        v = hi + abs(hi if hi else span) * 10 ** rng.uniform(-12, 3)
     elif c == 4:
-        v = lo + span * 10 ** rng.uniform(-4, -0.5)
+        v = lo + span * 10 ** rng.uniform(-12, -0.5)
     elif c == 5:
-        v = hi - span * 10 ** rng.uniform(-4, -0.5)
+        v = hi - span * 10 ** rng.uniform(-12, -0.5)
     elif c == 6:
         v = rng.uniform(lo, hi)
     else:
